@@ -74,19 +74,70 @@ _STD = {
 
 
 def seam_report():
-    """Which seams exist in the tree under test (refactors may move them)."""
+    """Planned seams (DESIGN.md 2.4) that are no longer present under their planned name.
+    Informational: seams are located by identity (seams_found), so a moved or renamed
+    import is still under the simulator's control."""
     missing = []
+    have = {(m.__name__, a) for m, a, _ in seams_found()}
     for modname in CLOCK_MODULES:
-        mod = importlib.import_module(modname)
-        if getattr(mod, "time", None) is not _stdtime and not hasattr(
-            getattr(mod, "time", None), "snapshot"
-        ):
+        if (modname, "time") not in have:
             missing.append(f"{modname}.time")
     for modname, attr, _ in RNG_SEAMS:
-        mod = importlib.import_module(modname)
-        if not hasattr(mod, attr):
+        if (modname, attr) not in have:
             missing.append(f"{modname}.{attr}")
     return missing
+
+
+def _library_modules():
+    """Every module of the library (so that code that moves between modules, or a
+    module that starts reading the clock, is still covered)."""
+    import pkgutil
+
+    for info in pkgutil.walk_packages(comb_spec_searcher.__path__, "comb_spec_searcher."):
+        try:
+            importlib.import_module(info.name)
+        except Exception:  # pylint: disable=broad-except
+            pass
+    return [m for name, m in sorted(sys.modules.items()) if name.startswith("comb_spec_searcher") and m is not None]
+
+
+_TIME_FUNCS = {"time": _stdtime.time, "monotonic": _stdtime.monotonic, "perf_counter": _stdtime.perf_counter, "sleep": _stdtime.sleep}
+_RNG_FUNCS = {
+    name: getattr(_stdrandom, name)
+    for name in ("choice", "shuffle", "randint", "random", "randrange", "sample")
+}
+
+
+def _find_seams():
+    """(module, attribute, kind) for every place where a library module holds the
+    stdlib clock or random source - as the module object (`import time`) or as an
+    imported function (`from random import choice`).  Found by identity, not by
+    name, so an import-style refactoring keeps the simulator in control."""
+    found = []
+    for mod in _library_modules():
+        for attr, val in list(vars(mod).items()):
+            if val is _stdtime:
+                found.append((mod, attr, "clock:module"))
+            elif val is _stdrandom:
+                found.append((mod, attr, "rng:module"))
+            else:
+                for fname, f in _TIME_FUNCS.items():
+                    if val is f:
+                        found.append((mod, attr, "clock:" + fname))
+                for fname, f in _RNG_FUNCS.items():
+                    if val is f:
+                        found.append((mod, attr, "rng:" + fname))
+    return found
+
+
+_SEAMS = None
+
+
+def seams_found():
+    global _SEAMS  # pylint: disable=global-statement
+    if _SEAMS is None:
+        _SEAMS = _find_seams()
+    return _SEAMS
 
 
 class Installed:
@@ -97,24 +148,20 @@ class Installed:
         self.rng = rng
         self.saved = []
 
+    def _put(self, clock, rng):
+        for mod, attr, kind in seams_found():
+            what, name = kind.split(":")
+            if what == "clock" and clock is not None:
+                setattr(mod, attr, clock if name == "module" else getattr(clock, name))
+            elif what == "rng" and rng is not None:
+                setattr(mod, attr, rng if name == "module" else getattr(rng, name))
+
     def __enter__(self):
-        if self.clock is not None:
-            for modname in CLOCK_MODULES:
-                mod = importlib.import_module(modname)
-                if hasattr(mod, "time"):
-                    self.saved.append((mod, "time", getattr(mod, "time")))
-                    setattr(mod, "time", self.clock)
+        for mod, attr, _kind in seams_found():
+            self.saved.append((mod, attr, getattr(mod, attr)))
+        self._put(self.clock, self.rng)
         if self.rng is not None:
-            for modname, attr, kind in RNG_SEAMS:
-                mod = importlib.import_module(modname)
-                if not hasattr(mod, attr):
-                    continue
-                self.saved.append((mod, attr, getattr(mod, attr)))
-                if kind == "module":
-                    setattr(mod, attr, self.rng)
-                else:
-                    setattr(mod, attr, getattr(self.rng, kind.split(":")[1]))
-            # a refactor reaching the global generator another way stays replayable
+            # code reaching the global generator another way stays replayable
             _stdrandom.seed(self.rng.seed)
         return self
 
@@ -122,20 +169,9 @@ class Installed:
         """Replace the installed clock / rng (used by twin executions)."""
         if clock is not None:
             self.clock = clock
-            for modname in CLOCK_MODULES:
-                mod = importlib.import_module(modname)
-                if hasattr(mod, "time"):
-                    setattr(mod, "time", clock)
         if rng is not None:
             self.rng = rng
-            for modname, attr, kind in RNG_SEAMS:
-                mod = importlib.import_module(modname)
-                if not hasattr(mod, attr):
-                    continue
-                if kind == "module":
-                    setattr(mod, attr, rng)
-                else:
-                    setattr(mod, attr, getattr(rng, kind.split(":")[1]))
+        self._put(clock, rng)
 
     def __exit__(self, *exc):
         for mod, attr, val in reversed(self.saved):
